@@ -110,6 +110,10 @@ def profile_cases(draw):
     cn2 = np.exp(rng.uniform(math.log(1e-17), math.log(1e-12), size=shape))
     h = np.exp(rng.uniform(math.log(10), math.log(2e4), size=shape))
     v = np.exp(rng.uniform(math.log(0.5), math.log(60), size=shape))
+    if draw(st.integers(0, 3)) == 0:
+        # whole-metre altitude tables / whole m/s winds stored as integers are valid inputs
+        h = np.round(h).astype(draw(st.sampled_from(["int64", "int32"])))
+        v = np.maximum(np.round(v), 1).astype(h.dtype)
     return {"cn2": cn2, "h": h, "v": v, "axis": axis, "use_default_axis": draw(st.booleans()) if axis in (-1, rank - 1) else False,
             "lam": draw(st.one_of(st.none(), gen.logfloat(0.3e-6, 25e-6)))}
 
@@ -121,9 +125,12 @@ def profile_body(ctx, case):
     kwa = dict(kw) if case["use_default_axis"] else dict(kw, axis=axis)
     ctx.case(case, nontrivial=cn2.ndim >= 2 and axis % cn2.ndim != cn2.ndim - 1, classes=["rank%d" % cn2.ndim, "axis_last" if axis % cn2.ndim == cn2.ndim - 1 else "axis_other"])
     c0, h0, v0 = cn2.copy(), h.copy(), v.copy()
+    ctx.classes["profile_dtype_" + str(h.dtype)] += 1
     for name, second in (("coherenceTime", v), ("isoplanaticAngle", h), ("rytov_variance", h)):
         f = getattr(ac, name)
         got = np.asarray(f(cn2, second, **kwa))
+        # the same numbers stored as floats must give the same result (no integer arithmetic surprises)
+        ctx.close(got, np.asarray(f(cn2, second.astype(np.float64), **kwa)), 1e-12, "%s: integer-typed and float-typed profile give the same result" % name, name=name + " dtype independence")
         # loop over profiles
         cm = np.moveaxis(cn2, axis, -1).reshape(-1, cn2.shape[axis])
         sm = np.moveaxis(second, axis, -1).reshape(-1, cn2.shape[axis])
@@ -140,7 +147,7 @@ def profile_body(ctx, case):
 def layer_cases(draw):
     return {"cn2": draw(gen.logfloat(1e-17, 1e-11)), "h": draw(gen.logfloat(10, 3e4)), "v": draw(gen.logfloat(0.5, 80)),
             "lam": draw(gen.logfloat(0.3e-6, 25e-6)), "cn2b": draw(gen.logfloat(1e-17, 1e-11)), "hb": draw(gen.logfloat(10, 3e4)),
-            "vb": draw(gen.logfloat(0.5, 80)), "lamb": draw(gen.logfloat(0.3e-6, 25e-6))}
+            "vb": draw(gen.logfloat(0.5, 80)), "lamb": draw(gen.logfloat(0.3e-6, 25e-6)), "int_profile": draw(st.sampled_from([None, None, "int64", "int32"]))}
 
 
 def layer_body(ctx, case):
@@ -149,8 +156,13 @@ def layer_body(ctx, case):
     ratios_t, ratios_h = [], []
     for c, h, v, lam in ((case["cn2"], case["h"], case["v"], case["lam"]), (case["cn2b"], case["hb"], case["vb"], case["lamb"])):
         r0 = ac.cn2_to_r0(c, lam)
-        th = ac.isoplanaticAngle(np.array([c]), np.array([h]), lam) * math.pi / (180 * 3600.)
-        tau = ac.coherenceTime(np.array([c]), np.array([v]), lam)
+        if case.get("int_profile"):
+            h, v = int(round(h)) or 1, int(round(v)) or 1
+            harr, varr = np.array([h], dtype=case["int_profile"]), np.array([v], dtype=case["int_profile"])
+        else:
+            harr, varr = np.array([h]), np.array([v])
+        th = ac.isoplanaticAngle(np.array([c]), harr, lam) * math.pi / (180 * 3600.)
+        tau = ac.coherenceTime(np.array([c]), varr, lam)
         ratios_h.append(float(th * h / r0))
         ratios_t.append(float(tau * v / r0))
     for name, rr in (("isoplanatic angle * h / r0", ratios_h), ("coherence time * v / r0", ratios_t)):
